@@ -129,6 +129,25 @@ def rebuild(s, date, mans=()):
 # ------------------------------------------------------------------ the machine
 
 
+def root_cause(kind, msg):
+    """several symptoms, one bucket"""
+    if kind.startswith("access:cylindrical."):
+        return "access:cylindrical-theta"
+    if kind.startswith("raised:pickle:") and kind.endswith("TypeError@orbits/statevector.py:__new__"):
+        return "pickle:base-lost"
+    if kind.startswith("raised:") and "NoneType" in msg and "setfield" in msg:
+        return "pickle:base-lost"
+    if (kind == "model:pickle:cov" and "<no _data>" in msg) or (
+            kind.startswith("raised:pickle:") and kind.endswith("AttributeError@orbits/cov.py:orb")):
+        return "pickle:cov-data-lost"
+    if kind.startswith("aliasing:"):
+        link = kind.split(":")[1]
+        if link and set(link.split("+")) <= {"as_orbit", "as_statevector"}:
+            # only as_orbit / as_statevector links between the two objects (parent-child or siblings)
+            return "aliasing:as_orbit" if "as_orbit" in link else "aliasing:as_statevector"
+    return kind
+
+
 class Machine:
     def __init__(self, case):
         self.case = case
@@ -146,6 +165,7 @@ class Machine:
     # -------- bookkeeping
 
     def add(self, kind, msg, **data):
+        kind = root_cause(kind, msg)
         if kind not in self.seen:
             self.seen.add(kind)
             self.viols.append(Violation(kind, f"step {self.step} ({self.opname}): {msg}", step=self.step,
@@ -165,11 +185,21 @@ class Machine:
         return r <= 1
 
     def link(self, a, b):
-        """how object a and object b are related: name of the op that made one from the other"""
-        for x, y in ((a, b), (b, a)):
-            if self.origin[x][1] == y:
-                return self.origin[x][0]
-        return "indirect"
+        """how objects a and b are related: the maker ops on the path between them in the family tree"""
+        def chain(x):
+            out = [(x, None)]
+            while self.origin[x][1] is not None:
+                out.append((self.origin[x][1], self.origin[x][0]))
+                x = self.origin[x][1]
+            return out
+
+        ca, cb = chain(a), chain(b)
+        ia = {idx: k for k, (idx, _) in enumerate(ca)}
+        for kb, (idx, _) in enumerate(cb):
+            if idx in ia:
+                ops = [op for _, op in ca[1:ia[idx] + 1]] + [op for _, op in cb[1:kb + 1]]
+                return "+".join(sorted(set(ops))) or "self"
+        return "unrelated"
 
     # -------- comparisons
 
@@ -180,7 +210,7 @@ class Machine:
         if coord_tol is not None and actual["coords"] != exp["coords"]:
             got, want = S.coords_of(actual), S.coords_of(exp)
             floor = np.where(np.abs(want) < 10.0, 1.0, 0.0)  # angles and ratios: absolute
-            if self.ratio(S.rel_err(got, want, floor), coord_tol):
+            if self.ratio(S.rel_err(got, want, floor, S.ANGLE_IDX[exp["form"]]), coord_tol):
                 exp["coords"] = actual["coords"]
         if cov_tol is not None and actual["cov"] and exp["cov"] and actual["cov"][0] == exp["cov"][0]:
             got, want = S.cov_of(actual), S.cov_of(exp)
@@ -543,7 +573,35 @@ def check(case):
 
 # ------------------------------------------------------------------ known findings (development aid)
 
-FINDINGS = {}
+
+
+def _ops(case):
+    return [o["op"] for o in case["ops"]]
+
+
+def _has_cyl(case):
+    return any(i["form"] == "cylindrical" for i in case["init"]) or any(o.get("form") == "cylindrical"
+                                                                        for o in case["ops"])
+
+
+def _maker_then_mutation(case, makers):
+    ops = _ops(case)
+    return any(ops[a] in makers and any(x in H.MUTATORS for x in ops[a + 1:]) for a in range(len(ops)))
+
+
+FINDINGS = {
+    "c15-cylindrical-theta-unreachable":
+        lambda facet, case, kind, msg, data: kind == "access:cylindrical-theta" and data.get("form") == "cylindrical"
+        and _has_cyl(case),
+    "c15-pickle-base-lost":
+        lambda facet, case, kind, msg, data: kind == "pickle:base-lost" and "pickle" in _ops(case),
+    "c15-pickle-cov-data-lost":
+        lambda facet, case, kind, msg, data: kind == "pickle:cov-data-lost" and "pickle" in _ops(case)
+        and (any(i["cov"] for i in case["init"]) or "attach_cov" in _ops(case)),
+    "c15-as-orbit-shares-data":
+        lambda facet, case, kind, msg, data: kind in ("aliasing:as_orbit", "aliasing:as_statevector")
+        and _maker_then_mutation(case, ("as_orbit", "as_statevector")),
+}
 
 
 def _assume_for_development():
@@ -562,6 +620,8 @@ def _assume_for_development():
             lst.append(k)
             findings._desc.setdefault(k, "(assumed for development via VERIF_C15_ASSUME)")
 
+
+_assume_for_development()
 
 FACETS = [
     Facet("histories", lambda s, t: H.history(), check, setup=setup,
